@@ -1,11 +1,25 @@
 from __future__ import annotations
 
+import re
 from decimal import Decimal
 from typing import Protocol, Any
 
 from . import isoduration
 
 STRICT_VALUE_CHECK = True
+
+# lexical spaces of the xsd types (after whitespace collapsing); Python's int() / Decimal() accept much more
+# (underscores, non-ASCII digits, 'NaN', 'Infinity', exponents), which must not be coerced to a value.
+_XML_WHITESPACE = ' \t\r\n'
+_INTEGER_PATTERN = re.compile(r'[+-]?[0-9]+', re.ASCII)
+_DECIMAL_PATTERN = re.compile(r'[+-]?(?:[0-9]+(?:\.[0-9]*)?|\.[0-9]+)', re.ASCII)
+
+
+def _checked_lexical(xml_value: str, pattern: re.Pattern, type_name: str) -> str:
+    stripped = xml_value.strip(_XML_WHITESPACE)
+    if pattern.fullmatch(stripped) is None:
+        raise ValueError(f'{xml_value!r} is not a valid {type_name}')
+    return stripped
 
 
 class DataConverterProtocol(Protocol):
@@ -128,7 +142,10 @@ class TimestampConverter(NullConverter):
     def to_py(cls, xml_value: str) -> float | None:
         if xml_value is None:
             return None
-        return int(xml_value) / 1000
+        value = int(_checked_lexical(xml_value, _INTEGER_PATTERN, 'timestamp (xsd:unsignedLong)'))
+        if value < 0:
+            raise ValueError(f'{xml_value!r} is not a valid timestamp (xsd:unsignedLong)')
+        return value / 1000
 
     @staticmethod
     def to_xml(py_value) -> str:
@@ -151,6 +168,7 @@ class DecimalConverter(NullConverter):
     def to_py(cls, xml_value: str) -> Decimal | int | float:
         if xml_value is None:
             return None
+        xml_value = _checked_lexical(xml_value, _DECIMAL_PATTERN, 'xsd:decimal')
         if cls.USE_DECIMAL_TYPE:
             return Decimal(xml_value)
         if '.' in xml_value:
@@ -218,7 +236,7 @@ class IntegerConverter(NullConverter):
     def to_py(xml_value: str) -> int:
         if xml_value is None:
             return None
-        return int(xml_value)
+        return int(_checked_lexical(xml_value, _INTEGER_PATTERN, 'xsd:integer'))
 
     @staticmethod
     def to_xml(py_value: int) -> str:
